@@ -326,7 +326,7 @@ macro_rules! token {
             fn digest(&self) -> u64 { self.payload as u64 }
             fn expect(seed: u64) -> u64 { (payload_of(seed) as $pty) as u64 }
             fn mutate(&mut self, seed: u64) { self.payload = payload_of(seed) as $pty; }
-            fn tok_id(&self) -> Option<u64> { Some(self.id as u64) }
+            fn tok_ids(&self) -> Vec<u64> { vec![self.id as u64] }
         }
         impl Drop for $name {
             fn drop(&mut self) {
@@ -366,6 +366,67 @@ token!(Tok12, u32, u32, #[repr(C, align(4))] { pad: u32 = 0x0C0C0C0C });
 token!(Tok16, u32, u32, #[repr(C, align(16))] {});
 token!(TokBox, u32, u32, #[repr(C)] { b: Box<u64> = Box::new(0xB0B0) });
 
+token!(BigTok, u32, u32, #[repr(C, align(8))] { pad: [u64; 12] = [0xB16B16B16B16B16B; 12] });
+
+/// A vector of tokens (element clones consult the clone fuse).
+impl FieldType for Vec<Tok8> {
+    fn make(seed: u64) -> Self {
+        let n = 1 + (mix(seed) % 3) as usize;
+        (0..n).map(|i| Tok8::make(seed.wrapping_add(i as u64 * 0x1F))).collect()
+    }
+    fn digest(&self) -> u64 {
+        let mut h = 0xcbf29ce484222325u64 ^ self.len() as u64;
+        for t in self.iter() {
+            h = (h ^ t.digest()).wrapping_mul(0x100000001b3);
+        }
+        h
+    }
+    fn expect(seed: u64) -> u64 {
+        let n = 1 + (mix(seed) % 3) as usize;
+        let mut h = 0xcbf29ce484222325u64 ^ n as u64;
+        for i in 0..n {
+            h = (h ^ Tok8::expect(seed.wrapping_add(i as u64 * 0x1F))).wrapping_mul(0x100000001b3);
+        }
+        h
+    }
+    fn mutate(&mut self, seed: u64) {
+        let n = 1 + (mix(seed) % 3) as usize;
+        self.truncate(n);
+        while self.len() < n {
+            self.push(Tok8::make(0));
+        }
+        for (i, t) in self.iter_mut().enumerate() {
+            t.mutate(seed.wrapping_add(i as u64 * 0x1F));
+        }
+    }
+    fn tok_ids(&self) -> Vec<u64> {
+        self.iter().flat_map(|t| t.tok_ids()).collect()
+    }
+}
+
+impl FieldType for [u64; 12] {
+    fn make(seed: u64) -> Self {
+        let mut i = 0u64;
+        [(); 12].map(|_| {
+            i += 1;
+            mix(seed.wrapping_mul(31).wrapping_add(i))
+        })
+    }
+    fn digest(&self) -> u64 {
+        let mut h = 0xcbf29ce484222325u64;
+        for x in self.iter() {
+            h = (h ^ *x).wrapping_mul(0x100000001b3);
+        }
+        h
+    }
+    fn expect(seed: u64) -> u64 {
+        Self::make(seed).digest()
+    }
+    fn mutate(&mut self, seed: u64) {
+        *self = Self::make(seed);
+    }
+}
+
 /// 3 bytes, alignment 1.
 #[derive(Debug)]
 #[repr(C)]
@@ -396,8 +457,8 @@ impl FieldType for Tok3 {
     fn mutate(&mut self, seed: u64) {
         self.payload = payload_of(seed) as u8;
     }
-    fn tok_id(&self) -> Option<u64> {
-        Some(u16::from_le_bytes(self.id) as u64)
+    fn tok_ids(&self) -> Vec<u64> {
+        vec![u16::from_le_bytes(self.id) as u64]
     }
 }
 
@@ -525,7 +586,7 @@ mod tests {
         law::<()>(); law::<[u8; 3]>(); law::<[u16; 3]>(); law::<[u32; 3]>(); law::<[u64; 3]>(); law::<[u64; 0]>(); law::<[u8; 5]>();
         law::<(u8, u32)>(); law::<A16>(); law::<A32>(); law::<Z16>(); law::<String>(); law::<Vec<u32>>(); law::<Box<str>>();
         law::<Option<String>>(); law::<[String; 2]>(); law::<Tok8>(); law::<Tok4>(); law::<Tok12>(); law::<Tok16>();
-        law::<TokBox>(); law::<Tok3>(); law::<TokZ>();
+        law::<TokBox>(); law::<Tok3>(); law::<TokZ>(); law::<BigTok>(); law::<Vec<Tok8>>(); law::<[u64; 12]>();
         assert!(crate::ledger_live().is_empty());
         assert_eq!(crate::zst_live(), 0);
         assert!(crate::ledger_take_errors().is_empty());
